@@ -333,6 +333,27 @@ def emit_function(E, f):
     for t, a in f.args: s.setvar(a, t)
     argvars = set(s.v(a) for t, a in f.args)
     blocks = f.blocks
+    # reorder blocks in reverse post-order so that only real back edges jump backwards
+    succ = {}
+    for bname, ins in blocks:
+        last = ins[-1] if ins else ''
+        succ[bname] = [m[1:] if m[0] == '%' else m for m in re.findall(r'label (%[-a-zA-Z$._0-9]+|%"[^"]*")', last)]
+    seen = set(); post = []
+    def dfs(b):
+        stack = [(b, iter(succ.get(b, [])))]; seen.add(b)
+        while stack:
+            node, it = stack[-1]
+            adv = False
+            for nb in it:
+                nb = nb.strip('"')
+                if nb not in seen and nb in succ:
+                    seen.add(nb); stack.append((nb, iter(succ.get(nb, [])))); adv = True; break
+            if not adv: post.append(node); stack.pop()
+    if blocks:
+        dfs(blocks[0][0])
+        order = post[::-1]
+        bmap = dict(blocks)
+        blocks = [(b, bmap[b]) for b in order] + [(b, i) for b, i in blocks if b not in seen]
     labels = {b[0]: 'L_' + cname('%' + b[0]) for b in blocks}
     # first pass: collect phis
     phis = {}  # block -> list of (dest, type, [(val, pred)])
